@@ -1,6 +1,7 @@
 use crate::analysis::type_resolver::TypeResolver;
 use crate::models::ChannelInfo;
 use std::path::Path;
+use syn::ext::IdentExt;
 use syn::spanned::Spanned;
 use syn::{
     AngleBracketedGenericArguments, FnArg, GenericArgument, ItemFn, PathArguments, PathSegment,
@@ -32,7 +33,7 @@ impl ChannelParser {
             if let FnArg::Typed(pat_type) = input {
                 // Extract parameter name
                 let param_name = if let syn::Pat::Ident(pat_ident) = &*pat_type.pat {
-                    pat_ident.ident.to_string()
+                    pat_ident.ident.unraw().to_string()
                 } else {
                     continue;
                 };
